@@ -39,6 +39,7 @@ class Bounds(object):
     # relation facts about the printed expression s: returns (lb, ub) refinements
     def _from_facts(self, s):
         lb, ub = None, None
+        ne0 = False
         for c, pol in self.facts:
             l, r = expr_str(self.f, c["a"][0]), expr_str(self.f, c["a"][1])
             op = c["op"]
@@ -73,7 +74,17 @@ class Bounds(object):
                     ub = oub if ub is None else min(ub, oub)
                 if olb is not None:
                     lb = olb if lb is None else max(lb, olb)
+            elif op == "!=" and olb == 0 and oub == 0:
+                ne0 = True
+        if ne0 and (lb is None or lb < 1) and self._unsigned_text(s):
+            lb = 1                                    # an unsigned value that is not 0
         return lb, ub
+
+    def _unsigned_text(self, s):
+        for n in self.f.nodes.values():
+            if n["k"] in ("ref", "call") and expr_str(self.f, n["i"]) == s:
+                return self._is_unsigned_expr(n["i"])
+        return False
 
     def interval(self, i, depth=0):
         """(lb, ub) with None = unknown on that side; unsigned typed expressions get lb 0"""
@@ -141,8 +152,25 @@ class Bounds(object):
             elif op == "%" and b[1] is not None and b[1] > 0:
                 lb, ub = 0, b[1] - 1
         elif k == "cond":
-            a = self.interval(n["a"][1], depth + 1)
-            b = self.interval(n["a"][2], depth + 1)
+            # each arm is evaluated under the condition that selects it
+            cn = f.nodes.get(n["a"][0])
+            while cn is not None and cn["k"] == "cast":
+                cn = f.nodes.get(cn["a"][0])
+            push = cn is not None and cn["k"] == "bin" and cn.get("op") in ("<", "<=", ">", ">=", "==", "!=")
+            if push:
+                self.facts.append((cn, True))
+            try:
+                a = self.interval(n["a"][1], depth + 1)
+            finally:
+                if push:
+                    self.facts.pop()
+            if push:
+                self.facts.append((cn, False))
+            try:
+                b = self.interval(n["a"][2], depth + 1)
+            finally:
+                if push:
+                    self.facts.pop()
             lb = min(a[0], b[0]) if a[0] is not None and b[0] is not None else None
             ub = max(a[1], b[1]) if a[1] is not None and b[1] is not None else None
         elif k == "call":
